@@ -52,7 +52,15 @@ func (d *Driver) EstablishPeriodicSubscription(
 
 	patterns := getNetconfPatterns()
 
-	subscriptionResult := patterns.subscriptionResult.FindSubmatch(r.RawResult)
+	// look at the decoded reply: in the raw bytes a NETCONF 1.1 chunk header can fall inside either
+	// element, and a reply without them must be an error rather than an index panic
+	subscriptionResult := patterns.subscriptionResult.FindSubmatch([]byte(r.Result))
+	if len(subscriptionResult) < 2 { //nolint:gomnd
+		return nil, fmt.Errorf(
+			"%w: subscription failed: no subscription result in reply",
+			util.ErrNetconfError,
+		)
+	}
 
 	if string(subscriptionResult[1]) != "ok" {
 		return nil, fmt.Errorf(
@@ -62,7 +70,14 @@ func (d *Driver) EstablishPeriodicSubscription(
 		)
 	}
 
-	match := patterns.subscriptionID.FindSubmatch(r.RawResult)
+	match := patterns.subscriptionID.FindSubmatch([]byte(r.Result))
+	if len(match) < 2 { //nolint:gomnd
+		return nil, fmt.Errorf(
+			"%w: subscription failed: no subscription id in reply",
+			util.ErrNetconfError,
+		)
+	}
+
 	subID, _ := strconv.Atoi(string(match[1]))
 
 	d.subscriptions[subID] = make([][]byte, 0)
